@@ -10,11 +10,11 @@ PropVerdict(r) ==
   LET eff == EffOrder(r.explicit, r.given, r.plo, r.locorder) IN
   IF ~InDomain(eff, r.f, r.sep) THEN "skip"
   ELSE IF r.exc # "" THEN "exception"
-  ELSE IF r.out = Expected(eff, r.f, r.tm) /\ r.period = "day" THEN "ok"
+  ELSE IF r.out = ExpectedUs(eff, r.f, r.tm, r.us) /\ r.period = "day" THEN "ok"
   ELSE IF YearAsOffset(eff, r.f, r.sep) THEN "known" ELSE "wrong"
 
 PropExpected(r) == LET eff == EffOrder(r.explicit, r.given, r.plo, r.locorder) IN
-                   IF InDomain(eff, r.f, r.sep) THEN Expected(eff, r.f, r.tm) ELSE <<>>
+                   IF InDomain(eff, r.f, r.sep) THEN ExpectedUs(eff, r.f, r.tm, r.us) ELSE <<>>
 
 Check(r) ==
   IF r.kind = "abs"
